@@ -83,7 +83,7 @@ CLIENT_METHODS = {
 def shards(tier: str, seed: int) -> list[dict[str, Any]]:
     if tier == "quick":
         return [{"per_kind": 250, "part": i, "parts": 8} for i in range(8)]
-    return [{"per_kind": 1500, "part": i, "parts": 16} for i in range(16)]
+    return [{"per_kind": 12000, "part": i, "parts": 16} for i in range(16)]
 
 
 def required_reach(tier: str) -> dict[str, int]:
